@@ -117,6 +117,37 @@ def h_other_code(b: int, j: int, c: int) -> bool:
     return accepted(segs)
 
 
+NUMFORMS = ('-.5', '.5', '-12.5', '1', '0.10', '-0')
+NFORM = P('nform', 3)
+BLO, BHI = P('blo', 0), P('bhi', 1000)
+
+
+def h_numeric_forms(b: int, j: int, f: int) -> bool:
+    '''
+    pre: 0 <= b < NB and 1 <= j <= 8 and 0 <= f < NFORM
+    pre: BLO <= b < BHI
+    post: _
+    '''
+    # a decimal (type R) element takes any canonical X12 decimal form that fits its length: -.5, .5, 1, -12.5 ...
+    i = BODY[b]
+    seg_id, node = _REF[i]
+    e = _SEGS[i].split('*')
+    if j >= len(e) or j > len(node.children) or e[j] == '':
+        return True
+    child = node.children[j - 1]
+    if child.is_composite() or child.valid_codes:
+        return True
+    de = child.root.data_elements.get_by_elem_num(child.data_ele)
+    v = NUMFORMS[f]
+    n = len(v.replace('-', '').replace('.', ''))
+    if de['data_type'] != 'R' or n < de['min_len'] or n > de['max_len']:
+        return True
+    e[j] = v
+    segs = list(_SEGS)
+    segs[i] = '*'.join(e)
+    return accepted(segs)
+
+
 def _instance_end(i):
     lp = _REF[i][1].parent.get_path()
     k = i + 1
@@ -210,7 +241,8 @@ def _ob(name, fn, tier, timeout, kind='ch', **params):
     return {'name': name, 'fn': fn, 'kind': kind, 'tier': tier, 'timeout': timeout, 'params': params}
 
 
-OBLIGATIONS = [_ob('group_sequence_835_837', 'h_group_sequence', 'quick', 3600, ngd=2),
+OBLIGATIONS = [_ob('numeric_forms_835_seg%02d' % lo, 'h_numeric_forms', 'quick', 3600, doc='835id', blo=lo, bhi=lo + 2) for lo in range(0, 32, 2)] + [
+               _ob('group_sequence_835_837', 'h_group_sequence', 'quick', 3600, ngd=2),
                _ob('group_sequence_835_837_834', 'h_group_sequence', 'thorough', 14400, ngd=3)]
 for doc, tier in (('repeat_init_segment', 'quick'), ('834_lui_id', 'thorough'), ('834_lui_id_5010', 'thorough')):
     OBLIGATIONS += [
@@ -218,12 +250,13 @@ for doc, tier in (('repeat_init_segment', 'quick'), ('834_lui_id', 'thorough'), 
         _ob('blank_optional_element_%s' % doc, 'h_blank_optional_element', tier, 7200, doc=doc),
         _ob('other_code_%s' % doc, 'h_other_code', tier, 7200, doc=doc, ncode=(5 if tier == 'quick' else 2)),
         _ob('repeat_loop_%s' % doc, 'h_repeat_loop', tier, 7200, doc=doc),
+        _ob('numeric_forms_%s' % doc, 'h_numeric_forms', tier, 7200, doc=doc, nform=(3 if tier == 'quick' else 6)),
     ]
 
 LEVEL = 'other'
 EXPLANATION = __doc__
 BOUNDS = ('quick: the 19-segment 270 document (repeat_init_segment): every pair of optional segments dropped, every optional element (positions 1..8) blanked, every coded element '
-          '(positions 2..8) set to each of up to 12 of its listed codes, every repeatable loop instance duplicated once; one interchange of three groups (835 first, then 835 / 837P in every order); thorough: the same for the 834 4010 / 5010 documents (two codes per coded element) and group sequences including an 834 group; index selection and loading of every indexed map is decided by C16.')
+          '(positions 2..8) set to each of up to 12 of its listed codes, every repeatable loop instance duplicated once; every decimal (R) element of the 835 document set to -.5 / .5 / -12.5; one interchange of three groups (835 first, then 835 / 837P in every order); thorough: the same for the 834 4010 / 5010 documents (two codes per coded element) and group sequences including an 834 group; index selection and loading of every indexed map is decided by C16.')
 OUTSIDE = ('documents synthesised from a map from scratch (a value synthesiser for every implementation-guide rule would be a model of its own); maps without a valid test document '
            '(271, 276/277, 278, 820, 830, 837I/D variants ...); combinations of more than one variation; HL / LX bearing loops for duplication.')
 ASSUMPTIONS = [
